@@ -96,8 +96,10 @@ def main():
         'checks': checks,
         'not_applicable': na,
         'notes': ('See DESIGN.md (section 9 = as built). KNOWN_FINDINGS.txt: eight defects found by the checks and repaired in /repo (fixed: lines, F1-F8) '
-                  'and two C09 deviations that cannot be repaired (known: lines, K1/K2 - C09 prints KNOWN-FINDING lines and exits 0). '
-                  '/verif/seeded/ holds 80 property-breaking changes written by independent sub-agents, all caught by the check of their property.'),
+                  'and three deviations that are recorded, not repaired (known: lines): K1/K2 for C09 (projector-splitting integrator) and K3 for '
+                  'C14/C15 (absolute Krylov breakdown threshold); C09, C14 and C15 print KNOWN-FINDING lines and exit 0. '
+                  '/verif/seeded/ holds 138 property-breaking changes written by independent sub-agents (five waves), all detected; '
+                  'tools/seeded_recheck.py re-runs them against the current checks.'),
     }
     with open(os.path.join(HERE, 'MANIFEST.json'), 'w') as fh:
         json.dump(m, fh, indent=1)
